@@ -31,7 +31,7 @@ def _find_shapes(states=SELF_STATES, operands=(('obj', 'Bits', 'immutable'), ('s
                             return [o, r_operand(vals, 'bs', k, o), rv(vals, 'start', d['start']), rv(vals, 'end', d['end']), ba], {}
                         aligned = bool(ba) or (ba is None and optba)
                         out.append(Shape(f'{cls}/{st}/{opname(k)}/{cname(d)}/ba={ba}/opt={optba}', build, real,
-                                         opts={'bytealigned': optba}, props={'C07'} if aligned else None))
+                                         opts={'bytealigned': optba}, props={'C07'} if aligned else None, stable=False))
     return out
 
 
